@@ -212,11 +212,9 @@ func (e *Engine) findDFA(haystack []byte) *Match {
 	// This is O(m) where m = match length, not O(n)
 	// For patterns without prefilter, estimate start position
 	// and search from there
+	// The search for the exact bounds must start where the caller asked: starting
+	// "at most 100 bytes before the end" lost or truncated every match longer than that.
 	estimatedStart := 0
-	if endPos > 100 {
-		// For long haystacks, start search closer to the match end
-		estimatedStart = endPos - 100
-	}
 	start, end, matched := e.pikevm.SearchAt(haystack, estimatedStart)
 	if !matched {
 		return nil
@@ -274,10 +272,9 @@ func (e *Engine) findAdaptive(haystack []byte) *Match {
 			e.putSearchState(state)
 			// DFA succeeded - get exact match bounds from NFA
 			// Use estimated start position for O(m) search instead of O(n)
+			// The search for the exact bounds must start where the caller asked: starting
+			// "at most 100 bytes before the end" lost or truncated every match longer than that.
 			estimatedStart := 0
-			if endPos > 100 {
-				estimatedStart = endPos - 100
-			}
 			start, end, matched := e.pikevm.SearchAt(haystack, estimatedStart)
 			if !matched {
 				return nil
